@@ -14,18 +14,49 @@ pub fn run_configs(prop: &str, tier: crate::registry::Tier, cfgs: Vec<Config>, w
     let queue = std::sync::Arc::new(std::sync::Mutex::new((0..cfgs.len()).collect::<VecDeque<usize>>()));
     let results = std::sync::Arc::new(std::sync::Mutex::new(Vec::new()));
     let nthreads = std::thread::available_parallelism().map(|n| n.get()).unwrap_or(4).min(16).min(cfgs.len().max(1));
+    // what every thread is executing right now: (configuration, history, since when) -- an operation of the subject that never returns
+    // would otherwise hang the whole run (the subject runs in-process here)
+    struct Slot { cfg: usize, hist: Vec<usize>, since: Instant, active: bool }
+    let slots: Vec<std::sync::Arc<std::sync::Mutex<Slot>>> = (0..nthreads).map(|_| std::sync::Arc::new(std::sync::Mutex::new(Slot { cfg: 0, hist: Vec::new(), since: Instant::now(), active: false }))).collect();
+    let hang_after = std::time::Duration::from_secs(std::env::var("VH_SEQ_HANG_S").ok().and_then(|s| s.parse().ok()).unwrap_or(60));
     let mut handles = Vec::new();
-    for _ in 0..nthreads {
-        let (queue, results, cfgs) = (queue.clone(), results.clone(), cfgs.clone());
+    for t in 0..nthreads {
+        let (queue, results, cfgs, slot) = (queue.clone(), results.clone(), cfgs.clone(), slots[t].clone());
         handles.push(std::thread::Builder::new().stack_size(8 << 20).spawn(move || {
             loop {
                 let Some(i) = queue.lock().unwrap().pop_front() else { break };
-                let r = explore(&cfgs[i], deadline, max_states);
+                let r = explore_with(&cfgs[i], deadline, max_states, |h| { let mut s = slot.lock().unwrap(); s.cfg = i; s.hist = h.to_vec(); s.since = Instant::now(); s.active = true; });
+                slot.lock().unwrap().active = false;
                 results.lock().unwrap().push((i, r));
             }
         }).unwrap());
     }
-    for h in handles { let _ = h.join(); }
+    let mut abandoned = vec![false; nthreads];
+    let mut hung: Vec<(usize, Vec<usize>)> = Vec::new();
+    loop {
+        std::thread::sleep(std::time::Duration::from_millis(100));
+        for t in 0..nthreads {
+            if abandoned[t] || handles[t].is_finished() { continue }
+            let s = slots[t].lock().unwrap();
+            if s.active && s.since.elapsed() > hang_after { abandoned[t] = true; hung.push((s.cfg, s.hist.clone())) }
+        }
+        if (0..nthreads).all(|t| abandoned[t] || handles[t].is_finished()) { break }
+    }
+    // threads stuck inside the subject are left behind (they end with the process)
+    for (t, h) in handles.into_iter().enumerate() { if !abandoned[t] { let _ = h.join(); } }
+    if !queue.lock().unwrap().is_empty() { rep.exhaustive = false }
+    for (i, hist) in hung {
+        let cfg = &cfgs[i];
+        rep.exhaustive = false;
+        // names of the operations: the prefix is known to return (it was executed before), the last one is looked up, not executed
+        let names = match replay(cfg, &hist[..hist.len().saturating_sub(1)]) {
+            Ok((sys, mut names, _)) => { let en = sys.enabled(); names.push(hist.last().and_then(|c| en.get(*c).cloned()).unwrap_or_else(|| "?".into())); names }
+            Err(_) => hist.iter().map(|c| format!("#{c}")).collect(),
+        };
+        rep.violations.push(Viol { family: cfg.name.clone(), rung: format!("D{}", hist.len()), kind: "hang".into(),
+            detail: format!("the last operation of this history (or the check that follows it) did not return within {} s -- history: {}", hang_after.as_secs(), names.join(", ")),
+            replay: json!({"engine": "seqx", "prop": prop, "tier": tier.name(), "config": cfg.name, "choices": hist, "operations": names}) });
+    }
     let mut results = std::mem::take(&mut *results.lock().unwrap());
     results.sort_by_key(|x| x.0);
     let mut per_cfg = Vec::new();
